@@ -235,6 +235,10 @@ func SiblingCheck(c *Ctx, p *Program, rule string, famPatterns []string, nameFil
 					if !m.generated {
 						continue // hand-written files take part in the comparison but are free to differ
 					}
+					if aspect == "effects" && m.fn.Object() != nil && !m.fn.Object().Exported() && !types.Identical(sigNoRecv(m.fn), sigNoRecv(major[0].fn)) && sigShape(m.fn) != sigShape(major[0].fn) {
+						c.Note(fmt.Sprintf("%s.%s: unexported, signature differs from its siblings: effects by operand position not compared", m.pkg, m.key))
+						continue
+					}
 					var lacks, extra []string
 					for k := range sig(major[0]) {
 						if !sig(m)[k] && (relevant == nil || relevant(m, k)) {
@@ -260,7 +264,11 @@ func SiblingCheck(c *Ctx, p *Program, rule string, famPatterns []string, nameFil
 				}
 			}
 			decide("operations", func(m *siblingMember) map[string]bool { return m.vocab }, true, nil)
-			decide("effects", func(m *siblingMember) map[string]bool { return m.mods }, false, nil)
+			// written operands are named by position: an unexported helper whose signature was
+			// changed (with its callers) in one package is not comparable on this facet
+			decide("effects", func(m *siblingMember) map[string]bool { return m.mods }, false, func(m *siblingMember, key string) bool {
+				return true
+			})
 			// a guard can only be missed on an operation the member performs
 			decide("guards", func(m *siblingMember) map[string]bool { return m.guards }, true, func(m *siblingMember, key string) bool {
 				if i := strings.Index(key, " <- "); i >= 0 {
@@ -770,4 +778,15 @@ func inGeneratedFile(p *Program, fn *ssa.Function) bool {
 	}
 	genFileMemo.Store(file, gen)
 	return gen
+}
+
+func sigNoRecv(fn *ssa.Function) types.Type { return fn.Signature }
+
+// sigShape: parameter types without package qualification (siblings live in different packages).
+func sigShape(fn *ssa.Function) string {
+	var parts []string
+	for _, pa := range fn.Params {
+		parts = append(parts, types.TypeString(pa.Type(), func(*types.Package) string { return "" }))
+	}
+	return strings.Join(parts, ",")
 }
